@@ -95,6 +95,7 @@ class Extractor:
         self.inline_pred = None
         self.sink_pred = sink_pred or (lambda it, S, v, ty: is_u8_sink_type(ty))
         self.max_paths = max_paths
+        self.time_budget = float(__import__("os").environ.get("RMLSA_REPLAY_BUDGET", "40"))      # seconds per extraction
         self.paths = []
         self.truncated = False
         self.unmodelled = []
@@ -335,6 +336,19 @@ class Extractor:
         if len(self.paths) >= self.max_paths:
             self.truncated = True
             return
+        # a replay that does not end (deeply nested helpers followed in place, many joins unfolded) is cut off like one with too many
+        # paths: the rules treat a truncated extraction as "cannot analyse", never as a pass
+        self._steps = getattr(self, "_steps", 0) + 1
+        if self._steps % 256 == 0:
+            import time as _t
+            if getattr(self, "_deadline", None) is None:
+                self._deadline = _t.time() + self.time_budget
+            elif _t.time() > self._deadline:
+                self.truncated = True
+        if self.truncated and getattr(self, "_deadline", None) is not None and self._steps > 256:
+            import time as _t
+            if _t.time() > self._deadline:
+                return
         self.body, self.it = fr.body, fr.it
         body, it = fr.body, fr.it
         outer = fr.ret is None
